@@ -76,11 +76,14 @@ func (c *ControlWriter) Write(p []byte) (n int, err error) {
 	if c.n+len(p) > c.limit {
 		return 0, ErrControlOverflow
 	}
-	return c.w.Write(p)
+	n, err = c.w.Write(p)
+	c.n += n
+	return n, err
 }
 
 // Flush flushes all buffered data to the underlying io.Writer.
 func (c *ControlWriter) Flush() error {
+	c.n = 0
 	return c.w.Flush()
 }
 
